@@ -78,6 +78,50 @@ pub fn exec_proj<S: Sc + BaseFloat>(op: &str, fm: &str, a: &[Val<S>]) -> Option<
             }
             Tup(vec![I(ceil_i((norm4(&rv) - 1.0).abs() / eps)), I(ceil_i(err / 1.0e-9)), I(0), B(between)])
         }
+        // C09 in general position: any rational eye / dir / up (no exact normalisation needed).  The constructor named by the
+        // first two arguments is called through the ordinary executor; the recorder then measures, in machine epsilons,
+        // how far the result is from a rigid motion with the documented handedness.
+        ("look_proj", [T(inner), T(form), rest @ ..]) => {
+            let res = crate::exec_geo::exec_flt_geo::<S>(inner, form, rest)?;
+            let (eye, dir, up): (Option<Point3<S>>, Vector3<S>, Vector3<S>) = match (inner.as_str(), rest) {
+                ("mat3_look_to", [V3(d), V3(u)]) => (None, *d, *u),
+                ("mat4_look_to", [P3(e), V3(d), V3(u)]) => (Some(*e), *d, *u),
+                ("mat4_look_at", [P3(e), P3(c), V3(u)]) => (Some(*e), c - e, *u),
+                ("rot_look_at", [T(_), V3(d), V3(u)]) => (None, *d, *u),
+                ("tf_look_at", [T(_), P3(e), P3(c), V3(u)]) => (Some(*e), c - e, *u),
+                _ => return None,
+            };
+            // rotation part and the image of the eye
+            let (rot, eye_img): (Matrix3<S>, Option<Point3<S>>) = match &res {
+                M3(m) => (*m, None),
+                M4(m) => (Matrix3::from_cols(m.x.truncate(), m.y.truncate(), m.z.truncate()), eye.map(|e| m.transform_point(e))),
+                Q(q) => (Matrix3::from(*q), None),
+                B3(b) => (basis3_mat(b), None),
+                DQ(d) => (Matrix3::from(d.rot), eye.map(|e| d.transform_point(e))),
+                D3(d) => (basis3_mat(&d.rot), eye.map(|e| d.transform_point(e))),
+                _ => return None,
+            };
+            let g = |v: Vector3<S>| [f(v.x), f(v.y), f(v.z)];
+            let cols = [g(rot.x), g(rot.y), g(rot.z)];
+            let mul = |v: [f64; 3]| [cols[0][0] * v[0] + cols[1][0] * v[1] + cols[2][0] * v[2],
+                                     cols[0][1] * v[0] + cols[1][1] * v[1] + cols[2][1] * v[2],
+                                     cols[0][2] * v[0] + cols[1][2] * v[1] + cols[2][2] * v[2]];
+            let mut ortho = 0.0f64;
+            for i in 0..3 { for j in 0..3 {
+                let d: f64 = (0..3).map(|k| cols[i][k] * cols[j][k]).sum::<f64>() - if i == j { 1.0 } else { 0.0 };
+                ortho = ortho.max(d.abs());
+            } }
+            let det = cols[0][0] * (cols[1][1] * cols[2][2] - cols[2][1] * cols[1][2]) - cols[1][0] * (cols[0][1] * cols[2][2] - cols[2][1] * cols[0][2])
+                + cols[2][0] * (cols[0][1] * cols[1][2] - cols[1][1] * cols[0][2]);
+            let (dv, uv) = (mul(g(dir)), mul(g(up)));
+            let dn = (dv[0] * dv[0] + dv[1] * dv[1] + dv[2] * dv[2]).sqrt().max(1e-300);
+            let un = (uv[0] * uv[0] + uv[1] * uv[1] + uv[2] * uv[2]).sqrt().max(1e-300);
+            let eye_dev = match (eye_img, eye) { (Some(p), Some(e)) => { let s = 1.0 + f(e.x).abs() + f(e.y).abs() + f(e.z).abs();
+                ceil_i((f(p.x).abs() + f(p.y).abs() + f(p.z).abs()) / (eps * s)) } _ => 0 };
+            Tup(vec![I(ceil_i(ortho / eps)), I(if det > 0.0 { 1 } else { -1 }),
+                     I(ceil_i((dv[0].abs() + dv[1].abs()) / (dn * eps))), I(if dv[2] > 0.0 { 1 } else { -1 }),
+                     I(ceil_i(uv[0].abs() / (un * eps))), I(if uv[1] >= -eps * un { 1 } else { -1 }), I(eye_dev)])
+        }
         // Deg -> Rad -> Deg (or the reverse) relative error in units of the scalar's epsilon
         ("unit_roundtrip", [T(unit), N(x)]) => {
             let back: S = if unit == "Deg" { let r: Rad<S> = Deg(*x).into(); let d: Deg<S> = r.into(); d.0 } else { let d: Deg<S> = Rad(*x).into(); let r: Rad<S> = d.into(); r.0 };
